@@ -99,6 +99,15 @@ def check_case(case, spec=None):
             res.fail("row-count", "rows", context=name, reactions=rxs, n_out=len(rows))
             return res
     base = [pipe.row_key(r) for r in contexts["alone"]]
+    if not case.get("_rechecked") and any(pipe.row_key(r) != base[i] for rows in contexts.values() for i, r in enumerate(rows)):
+        # wall clock is never an oracle (RDKit's 1 s search limit leaves no text behind when it cuts a search short
+        # under load): evaluate the whole case once more from scratch; only a difference seen both times counts
+        for r_ in rxs:
+            _ALONE.pop(r_, None)
+        again = check_case(dict(case, _rechecked=True), spec)
+        if not any(f["bucket"].startswith("row-differs") for f in again.failures):
+            res.inconclusive = "transient difference (not repeated on immediate re-run)"
+            return res
     for name, rows in contexts.items():
         for i, r in enumerate(rows):
             k = pipe.row_key(r)
